@@ -23,7 +23,7 @@ META = dict(
 )
 
 JAR_OK = "Model checking completed. No error has been found."
-UNPREDICTED = ["CalcInterest", "Tick", "Bid", "FundMod"]
+UNPREDICTED = ["Tick", "Bid"]
 
 
 def mc_cfg(wd, name, profile, steps, emit, props):
@@ -90,7 +90,7 @@ def run(c):
     need = ["released", "releasedBridged", "releasedWithInterest", "atBoundary", "rejectedLoans", "withdrawnWithPledge", "repaid",
             "handedOver", "rewardPaid", "stableBorrowed", "walked", "confOkSteps", "drawn"]
     zero = [k for k in need if stats.get(k, 0) == 0]
-    if zero:
+    if zero and not c.violations:   # a violation found on real states stands even if another antecedent was not exercised
         raise vlib.NoVerdict("vacuous run, antecedent counters are 0: %s" % zero)
     return c.finish("model_checking", dict(
         states=dist, transitions=gen, traces_validated_against_impl=allnodes,
